@@ -30,7 +30,8 @@ MON_INV = {
     "C01": ["M_C01_Identity", "M_C01_LookupsDuringStart", "M_C04_NoHalfBuilt", "M_C04_PublishedClean", "M_C06_SliceOnce"],
     "C02": ["M_C02_NoReentry", "M_C02_NoSelfWire", "M_C02_Populated", "M_C02_FailIffSelfOnly"],
     "C03": ["M_C03_NoStale", "M_C04_PublishedClean", "M_C02_NoReentry"],
-    "C04": ["M_C04_EarlyOnce", "M_C04_OneEarlyRef", "M_C04_PublishedClean", "M_C04_CleanFailure", "M_C04_NoHalfBuilt", "M_C06_SliceOnce"],
+    "C04": ["M_C04_EarlyOnce", "M_C04_OneEarlyRef", "M_C04_PublishedClean", "M_C04_CleanFailure", "M_C04_NoHalfBuilt", "M_C06_SliceOnce",
+            "M_C02_NoReentry"],      # a second creation of a name that is in creation: nobody observed "one and the same early reference"
     "C05": ["M_C05_Order", "M_C05_Once", "M_C05_DepsFirst", "M_C05_PopulatedBeforeInit", "M_C05_AllCallbacks", "M_C05_Lazy", "M_C05_Procs"],
     "C09": ["M_C09_NoPanic", "M_C09_FaultFails", "M_C04_CleanFailure", "M_C13_Runners"],
 }
